@@ -30,6 +30,24 @@ check(
     "DESIGN.md 4/C20",
 )
 
+check(
+    "C12",
+    "other",
+    "bounded symbolic verification of the decision functions that mirror CPython rules: reachability (consider_sys_version_info / consider_sys_platform / infer_condition_value: expression shapes enumerated, every int/str parameter and the target version symbolic; a definite answer must equal the runtime value), constant folding (folded value = the Python operator's value, for every operand), plus the arity/MRO kernels when present (see evidence sections). Counterexamples are replayed with the real mypy command against CPython before being reported.",
+    "trusted: z3, pysem table, the runtime model sys.version_info=(major, minor, micro>=0, 'final', serial>=0); bitwise/float-libm operators uninterpreted; known findings: open-ended version_info comparisons (known_findings.json)",
+    "symbolic execution of real Python source with z3 (decision-replay) + replay against CPython",
+    "DESIGN.md 4/C12",
+)
+
+check(
+    "C13",
+    "other",
+    "bounded symbolic verification of the exit-status chain: the real Errors.format_messages_default, util.count_stats and the status expressions extracted from main.main and dmypy_server on every run are executed on symbolic diagnostics (bounded strings as bit-vector character arrays); obligation: status 0 iff no error-severity diagnostic, 2 iff blockers. Ignore-comment exactness is covered by the K1 section when present in evidence.",
+    "trusted: z3; file names contain no ':'; --pretty source lines outside the bound; message text printable ASCII up to the stated length",
+    "symbolic execution of real Python source with z3 over bounded bit-vector strings",
+    "DESIGN.md 4/C13",
+)
+
 ALL = [f"C{i:02d}" for i in range(1, 21)]
 
 
